@@ -189,26 +189,184 @@ func c05Outcome(b []byte, err error, pan string) string {
 // ONE pair of big.Int nonces for its whole life and refill them in place before every call; code that
 // keeps a reference to such memory beyond the call (a cache keyed by the slice, a result that aliases an
 // argument) is right for freshly allocated arguments and wrong for this caller. So every byte-string and
-// integer argument of every operation lives in a long-lived slot (c05Slots / c05Ints), and every
+// integer argument of every operation lives in long-lived memory (c05Arena / c05Ints), and every
 // operation is run twice on them: first with other contents of the same lengths (the complement of each
 // argument — "the previous call"), then, refilled in place, with the operation's own arguments; only the
 // second result is reported. After the call has returned the arguments are overwritten once more and the
 // result must not move.
 
-var c05Slots [5][]byte
 var c05Ints [2]*big.Int
 
-// c05Place copies content (complemented for the decoy pass) into slot i and returns the slot's slice.
-func c05Place(i int, content []byte, decoy bool) []byte {
-	if cap(c05Slots[i]) < len(content) {
-		c05Slots[i] = make([]byte, len(content), 2*len(content)+64)
+// Where the byte-string arguments live: ONE long-lived array (c05Arena), every argument a window into it.
+// A caller's message is rarely a slice of its own with nothing behind it: it is the first n bytes of a
+// reused write buffer, a field of a packet serialised into an arena, one of several packets laid back to
+// back — the slice handed to the library has SPARE CAPACITY, and the memory behind (and in front of) it
+// is the caller's too. "The caller's buffers are never modified" covers that memory: a library that
+// builds its padded copy by appending to the argument writes into it. So:
+//   * every argument sits between guard zones filled with a known, never-zero pattern (for a share of the
+//     operations the arguments are laid back to back instead, no guard between them: what is written
+//     behind one argument lands in the next);
+//   * the capacity of the slice handed over varies with the operation: to the end of the arena (half of
+//     the operations), exactly its length, or its length plus 1..15 bytes;
+//   * the whole arena is compared with its image from just before the call — after the call has returned,
+//     and again after the forced collection — outside AND inside the arguments (output buffers excepted).
+// The layout depends on the operation line only (c05Layout), so the decoy pass and the reported pass of
+// one operation use the same memory, refilled in place.
+
+var c05Arena []byte
+
+type c05Region struct {
+	off, n   int
+	writable bool // an output buffer: the callee's to write
+}
+
+var c05Lay struct {
+	used       int
+	regions    []c05Region
+	backToBack bool
+	capMode    int // 0, 1: to the end of the arena; 2: exactly len; 3: len + 1..15
+	capExtra   int
+	swap       bool   // c05.msgenc: the message in front of the key
+	snap       []byte // image of the arena up to used + guard, taken by c05Arm just before the call
+}
+
+const c05Guard = 48
+
+func c05Pattern(i int) byte { return 0x81 + byte(i%113) } // never zero
+
+// c05Layout starts the layout of one operation's arguments; it is a function of the operation line alone.
+func c05Layout(op []string) {
+	line := strings.Join(op, " ")
+	h := fnv32([]byte(line))
+	est := 4096
+	for _, t := range op[1:] {
+		n := len(t) / 2
+		if len(t) > 1 && strings.ContainsRune("rpz", rune(t[0])) {
+			if k, err := strconv.Atoi(strings.SplitN(t[1:], ":", 2)[0]); err == nil {
+				n = k
+			}
+		}
+		est += 3*n + 4*c05Guard // every argument, an output buffer or ciphertext of its size, a re-placed copy
 	}
-	b := c05Slots[i][:len(content)]
-	copy(b, content)
+	if len(c05Arena) < est {
+		c05Arena = make([]byte, 2*est)
+	}
+	c05Lay.used, c05Lay.regions, c05Lay.snap = 0, c05Lay.regions[:0], nil
+	c05Lay.backToBack = h%4 == 0
+	c05Lay.capMode = int(h>>2) % 4
+	c05Lay.capExtra = 1 + int(h>>4)%15
+	c05Lay.swap = (h>>8)%2 == 1
+}
+
+func c05PlaceAt(content []byte, decoy, writable bool) []byte {
+	lay := &c05Lay
+	need := c05Guard + len(content) + c05Guard
+	if lay.used+need+16 > len(c05Arena) { // the estimate of c05Layout was too small: a buffer of its own
+		b := make([]byte, len(content), 2*len(content)+64)
+		copy(b, content)
+		if decoy {
+			c05Scribble(b)
+		}
+		return b
+	}
+	if !lay.backToBack || len(lay.regions) == 0 {
+		for i := 0; i < c05Guard; i++ {
+			c05Arena[lay.used+i] = c05Pattern(lay.used + i)
+		}
+		lay.used += c05Guard
+	}
+	off, n := lay.used, len(content)
+	copy(c05Arena[off:off+n], content)
+	lay.used += n
+	// the guard / spare capacity behind the argument (overwritten by the next argument when back to back)
+	for i := lay.used; i < lay.used+c05Guard; i++ {
+		c05Arena[i] = c05Pattern(i)
+	}
+	lay.regions = append(lay.regions, c05Region{off, n, writable})
+	var b []byte
+	switch lay.capMode {
+	case 2:
+		b = c05Arena[off : off+n : off+n]
+	case 3:
+		b = c05Arena[off : off+n : off+n+lay.capExtra]
+	default:
+		b = c05Arena[off : off+n]
+	}
 	if decoy {
 		c05Scribble(b)
 	}
 	return b
+}
+
+// c05Place copies content (complemented for the decoy pass) into the arena and returns its window.
+func c05Place(_ int, content []byte, decoy bool) []byte { return c05PlaceAt(content, decoy, false) }
+
+// c05Arm takes the image of the caller's memory; to be called when every argument is in place, just
+// before the call.
+func c05Arm() {
+	end := c05Lay.used + c05Guard
+	if end > len(c05Arena) {
+		end = len(c05Arena)
+	}
+	c05Lay.snap = append(c05Lay.snap[:0], c05Arena[:end]...)
+}
+
+const (
+	c05Outside = "caller-memory-changed-outside-arguments"
+	c05Inside  = "caller-buffer-changed"
+)
+
+// c05Touched compares the caller's memory with its image: "" when nothing but output buffers changed
+// (their new contents join the image), else whether the first changed byte lies inside an argument or
+// in the memory around the arguments (guard zone / spare capacity), and where.
+func c05Touched() (kind, where string) {
+	snap := c05Lay.snap
+	if snap == nil {
+		return "", ""
+	}
+	for _, r := range c05Lay.regions {
+		if r.writable {
+			copy(snap[r.off:r.off+r.n], c05Arena[r.off:r.off+r.n])
+		}
+	}
+	if bytes.Equal(snap, c05Arena[:len(snap)]) {
+		return "", ""
+	}
+	i := 0
+	for snap[i] == c05Arena[i] {
+		i++
+	}
+	for k, r := range c05Lay.regions {
+		if i >= r.off && i < r.off+r.n {
+			return c05Inside, fmt.Sprintf("byte %d of argument %d (%d bytes)", i-r.off, k+1, r.n)
+		}
+	}
+	for k, r := range c05Lay.regions {
+		if i >= r.off+r.n && (k+1 == len(c05Lay.regions) || i < c05Lay.regions[k+1].off) {
+			return c05Outside, fmt.Sprintf("%d bytes behind the end of argument %d (%d bytes, capacity %d)", i-(r.off+r.n)+1, k+1, r.n, c05CapOf(r))
+		}
+	}
+	return c05Outside, "in front of the first argument"
+}
+
+func c05CapOf(r c05Region) int {
+	switch c05Lay.capMode {
+	case 2:
+		return r.n
+	case 3:
+		return r.n + c05Lay.capExtra
+	}
+	return len(c05Arena) - r.off
+}
+
+var c05Where string // detail of the last c05Outside / c05Inside finding, for the run's notes
+
+func c05Check() string {
+	kind, where := c05Touched()
+	if kind != "" {
+		c05Where = where
+	}
+	return kind
 }
 
 // c05PlaceInt sets the long-lived big.Int i to the value of the token (its words are rewritten in place
@@ -297,6 +455,9 @@ func c05Later(bufs [][]byte, ints ...*big.Int) bool {
 		snap = append(snap, n.Bytes())
 	}
 	c05Collect()
+	if c05Check() != "" {
+		return true
+	}
 	for i, b := range bufs {
 		if !bytes.Equal(snap[i], b) {
 			return true
@@ -321,16 +482,21 @@ func c05Exec(op []string) string {
 }
 
 func c05Exec1(op []string, decoy bool) string {
+	c05Layout(op)
 	arg := func(slot, i int) []byte { return c05Place(slot, c05Bytes(op[i]), decoy) }
 	switch op[0] {
 	case "c05.enc", "c05.dec":
 		key, iv, data := arg(0, 1), arg(1, 2), arg(2, 3)
-		out := c05Place(3, c05Fill(len(data)), false)
+		out := c05PlaceAt(c05Fill(len(data)), false, true)
 		var err error
+		c05Arm()
 		if op[0] == "c05.enc" {
 			err = ige.VerifIGEEncrypt(data, out, key, iv)
 		} else {
 			err = ige.VerifIGEDecrypt(data, out, key, iv)
+		}
+		if w := c05Check(); w != "" {
+			return w
 		}
 		line := fmt.Sprintf("err=%s out=%s in=%s", c05Err(err), showBytes(out), showBytes(data))
 		if !decoy && c05Later([][]byte{key, iv, data, out}) {
@@ -341,9 +507,16 @@ func c05Exec1(op []string, decoy bool) string {
 		}
 		return line
 	case "c05.msgenc":
-		ak, msg := arg(0, 1), arg(1, 2)
+		var ak, msg []byte
+		if c05Lay.swap { // the message in front of the key: back to back, the key is what lies behind the message
+			msg = arg(1, 2)
+			ak = arg(0, 1)
+		} else {
+			ak, msg = arg(0, 1), arg(1, 2)
+		}
 		ak0, msg0 := append([]byte{}, ak...), append([]byte{}, msg...)
 		var err error
+		c05Arm()
 		res, pan := c05Catch(func() []byte {
 			var r []byte
 			r, err = ige.Encrypt(msg, ak)
@@ -351,6 +524,9 @@ func c05Exec1(op []string, decoy bool) string {
 		})
 		if !bytes.Equal(ak, ak0) || !bytes.Equal(msg, msg0) {
 			return "caller-buffer-changed"
+		}
+		if w := c05Check(); w != "" {
+			return w
 		}
 		if !decoy && c05Later([][]byte{ak, msg, res}) {
 			return c05LateChange
@@ -363,6 +539,7 @@ func c05Exec1(op []string, decoy bool) string {
 		ak, mk, ct := arg(0, 1), arg(1, 2), arg(2, 3)
 		ak0, mk0, ct0 := append([]byte{}, ak...), append([]byte{}, mk...), append([]byte{}, ct...)
 		var err error
+		c05Arm()
 		res, pan := c05Catch(func() []byte {
 			var r []byte
 			r, err = ige.Decrypt(ct, ak, mk)
@@ -370,6 +547,9 @@ func c05Exec1(op []string, decoy bool) string {
 		})
 		if !bytes.Equal(ak, ak0) || !bytes.Equal(mk, mk0) || !bytes.Equal(ct, ct0) {
 			return "caller-buffer-changed"
+		}
+		if w := c05Check(); w != "" {
+			return w
 		}
 		if !decoy && c05Later([][]byte{ak, mk, ct, res}) {
 			return c05LateChange
@@ -398,12 +578,16 @@ func c05Exec1(op []string, decoy bool) string {
 		msg := arg(0, 5)
 		msg0 := append([]byte{}, msg...)
 		rand.Seed(seed) // the padding comes from dry.RandomBytes = global math/rand
+		c05Arm()
 		ct, pan := c05Catch(func() []byte { return ige.EncryptMessageWithTempKeys(msg, n, s) })
 		if pan != "" {
 			return pan
 		}
 		if !bytes.Equal(msg, msg0) {
 			return "caller-buffer-changed"
+		}
+		if w := c05Check(); w != "" {
+			return w
 		}
 		if !decoy && c05Later([][]byte{msg, ct}, n, s) {
 			return c05LateChange
@@ -415,9 +599,13 @@ func c05Exec1(op []string, decoy bool) string {
 		ctFull := hexD(ct) // in full: the oracle decrypts it
 		ct = c05Place(1, ct, false)
 		ct0 := append([]byte{}, ct...)
+		c05Arm()
 		rt, pan := c05Catch(func() []byte { return ige.DecryptMessageWithTempKeys(ct, n, s) })
 		if !bytes.Equal(ct, ct0) {
 			return "caller-buffer-changed"
+		}
+		if w := c05Check(); w != "" {
+			return w
 		}
 		if !decoy && c05Later([][]byte{ct, rt}, n, s) {
 			return c05LateChange
@@ -429,9 +617,13 @@ func c05Exec1(op []string, decoy bool) string {
 	case "c05.tnopad":
 		n, s, data := c05PlaceInt(0, op[1], decoy), c05PlaceInt(1, op[2], decoy), arg(0, 3)
 		data0 := append([]byte{}, data...)
+		c05Arm()
 		ct, pan := c05Catch(func() []byte { return ige.VerifEncryptWithTempKeysNoPad(data, n, s) })
 		if !bytes.Equal(data, data0) {
 			return "caller-buffer-changed"
+		}
+		if w := c05Check(); w != "" {
+			return w
 		}
 		if !decoy && c05Later([][]byte{data, ct}, n, s) {
 			return c05LateChange
@@ -452,9 +644,13 @@ func c05Exec1(op []string, decoy bool) string {
 			c05Ints[0], c05Ints[1] = new(big.Int), new(big.Int)
 		}
 		n, s := c05Ints[0].SetBytes(nb), c05Ints[1].SetBytes(sb)
+		c05Arm()
 		res, pan := c05Catch(func() []byte { return ige.DecryptMessageWithTempKeys(ct, n, s) })
 		if !bytes.Equal(ct, ct0) {
 			return "caller-buffer-changed"
+		}
+		if w := c05Check(); w != "" {
+			return w
 		}
 		if !decoy && c05Later([][]byte{ct, res}, n, s) {
 			return c05LateChange
@@ -465,7 +661,11 @@ func c05Exec1(op []string, decoy bool) string {
 		return fmt.Sprintf("ct=%s out=%s", ctShown, c05Outcome(res, nil, pan))
 	case "c05.tdecraw":
 		n, s, ct := c05PlaceInt(0, op[1], decoy), c05PlaceInt(1, op[2], decoy), arg(0, 3)
+		c05Arm()
 		res, pan := c05Catch(func() []byte { return ige.DecryptMessageWithTempKeys(ct, n, s) })
+		if w := c05Check(); w != "" {
+			return w
+		}
 		if !decoy && c05Later([][]byte{ct, res}, n, s) {
 			return c05LateChange
 		}
@@ -498,14 +698,28 @@ func field(out, name string) string {
 func c05Judge(op []string, out string) string {
 	why := c05Judge1(op, out)
 	if why != "" {
-		why += " [every argument lives in a long-lived caller buffer that held other contents (the complement) during the call before, see c05Exec]"
+		why += " [every argument is a window into one long-lived caller array that held other contents (the complement) during the call before, see c05Exec / c05Layout]"
 	}
 	return why
 }
 
+// c05Describe: where the last finding of c05Check lies and how the operation's arguments were laid out
+// (the Judge runs right after the Exec of its operation).
+func c05Describe() string {
+	caps := []string{"capacity to the end of the array", "capacity to the end of the array", "capacity = length", fmt.Sprintf("capacity = length + %d", c05Lay.capExtra)}[c05Lay.capMode]
+	lay := "guard zones between the arguments"
+	if c05Lay.backToBack {
+		lay = "arguments back to back"
+	}
+	return fmt.Sprintf("[first changed byte: %s; layout: %s, %s]", c05Where, lay, caps)
+}
+
 func c05Judge1(op []string, out string) string {
 	if out == "caller-buffer-changed" {
-		return "a caller's buffer was modified by the call"
+		return "a caller's buffer was modified by the call " + c05Describe()
+	}
+	if out == c05Outside {
+		return "the call wrote into the caller's memory AROUND its arguments (every argument is a window into one long-lived array, between guard zones of a known pattern or back to back with the next argument; its spare capacity is the caller's memory): " + c05Describe()
 	}
 	if out == c05LateChange {
 		return "a caller's buffer, intact when the call returned, had changed after the garbage collector (and the finalizers it queued) had run: the code keeps a reference into caller-owned memory and writes through it later"
